@@ -16,6 +16,12 @@
 (* Transmission: slant paths with integer chord multipliers Ltab[j][i]     *)
 (* (tangent layer j, i-th layer above it), as in path_integral ->          *)
 (* contribute(0, n-j, j, j, ..).                                           *)
+(* c is the SUM of all cross-section-like contributions of the model:      *)
+(* every contribution ADDS its optical depth to what the path holds, so    *)
+(* ktr / kint depend on that sum only, not on the number of contributions  *)
+(* carrying it nor on their order around the k-table term (the lists the   *)
+(* vectors are realised with: MC_KTable.tla, KLists; the design-level      *)
+(* statement with its mutants: KTableHistory.tla, clist / PathRead).       *)
 (***************************************************************************)
 EXTENDS Emission
 
